@@ -1966,6 +1966,11 @@ var witnesses = []witness{
 	{"imports-target-is-url", "url-target", nil, "#fs", nil, jobj("#fs", "node:fs"), nil, nil, ""},
 	{"star-in-specifier", "star-in-specifier", jobj("./index/*/b", "./index/index.mjs"), "pkg/index/*/b", []string{"index/index.mjs"}, nil, nil, nil, ""},
 	{"case-colliding-directory-entries", "case-colliding-entries", jobj("./x", "./index/A"), "pkg/x", []string{"index/A", "index/a/b.js"}, nil, nil, nil, ""},
+	{scenario: "invalid-package-name-taken-as-self-reference", what: "nameless-self-reference", spec: "@foo", kinds: []string{"require"},
+		raw: map[string]string{
+			"package.json":                `{"exports":{".":"./own.js"}}`,
+			"own.js":                      "module.exports='own'\n",
+			"node_modules/@foo/index.js":  "module.exports='foo'\n"}},
 	{scenario: "package-scope-stops-at-node-modules", what: "scope-boundary", spec: "rootpkg", importer: "node_modules/nopkg/index.js",
 		raw: map[string]string{
 			"package.json":                      `{"name":"rootpkg","exports":{".":"./own.js"}}`,
